@@ -77,6 +77,11 @@ SIZES_BIG = ([1 << k for k in range(5, 64)] + [(1 << 56) - 2, (1 << 56) - 1, 1 <
              (1 << 63) - 3, (1 << 63) - 2, (1 << 63) - 1, 1 << 63, (1 << 63) + 1, (1 << 64) - 3, (1 << 64) - 2, (1 << 64) - 1,
              (1 << 56) - 17, (1 << 56) - 16, (1 << 56) - 15, (1 << 63) - 24, (1 << 63) - 16, (1 << 63) - 8])
 
+# lengths and sizes around whole 4 KiB pages (header included: 16 bytes) and a few other large ones: thresholds a change
+# may hide behind ("only for big buffers", "only when both sizes fall on the same page")
+PAGEISH = sorted({4096 * k - 16 + d for k in (1, 2, 3) for d in (-65, -64, -63, -17, -16, -15, -1, 0, 1, 15, 16, 17, 63, 64, 65)}
+                 | {3000, 4097, 4104, 4900, 5000, 5001, 7500, 8176, 8191, 8192, 8193, 9096})
+
 class Slot:
     __slots__ = ('text', 'kind')   # kind guess: 'I','H','S' (steering only)
     def __init__(self, text, kind):
@@ -109,7 +114,7 @@ class CaseGen:
         c = r.weighted([('from_str', 10), ('static', 5), ('with_capacity', 4), ('new', 2), ('char', 1), ('bool', 1),
                         ('collect_chars', 2), ('collect_strs', 1), ('display', 2), ('int', 2)])
         if c == 'from_str':
-            t = gen_text(r)
+            t = gen_text(r, r.pick(PAGEISH)) if self.p.get('large') and r.chance(1, 2) else gen_text(r)
             route = r.pick(['from', 'from', 'string', 'refstring', 'box', 'cowb', 'cowo', 'parse', 'tls', 'utf8', 'collect1'])
             self.emit(self.mode(), 'from_str', route, hexs(t)); self.slots.append(Slot(t, self.kind_for(len(t))))
         elif c == 'static' and self.statics:
@@ -117,6 +122,7 @@ class CaseGen:
             self.emit('plain', 'from_static', sid); self.slots.append(Slot(t, 'S' if len(t) > 16 else 'I'))
         elif c == 'with_capacity':
             n = r.pick([0, 1, 15, 16, 17, 18, 30, 40, 64, 100, 1000]) if not r.chance(1, 6) else r.pick(SIZES_BIG)
+            if self.p.get('large') and r.chance(1, 2): n = r.pick(PAGEISH)
             self.emit(self.mode(), 'with_capacity', n)
             self.slots.append(Slot(b'', 'H' if 16 < n < (1 << 20) else 'I') if n < (1 << 20) else None)
         elif c == 'int':
@@ -159,16 +165,22 @@ class CaseGen:
     # ---- ops on an existing slot
     def op_on(self, i):
         r = self.r; s = self.slots[i]; t = s.text; L = len(t)
-        bs = boundaries(t)
+        bs = boundaries(t); bset = set(bs)
+        large = self.p.get('large')
         c = r.weighted([('push', 8), ('push_str', 8), ('pop', 5), ('remove', 5), ('insert', 5), ('insert_str', 5),
                         ('truncate', 6), ('clear', 2), ('retain', 4), ('reserve', 5), ('shrink_to', 5), ('shrink_to_fit', 2),
                         ('extend_chars', 3), ('extend_strs', 2), ('write_fmt', 2), ('clone', 10), ('clone_from', 3), ('drop', 4)])
+        if large and L > 600:
+            # the model's retain and pop are quadratic / slow on long texts (they decode from the front): keep them rare here
+            if c == 'retain': c = 'shrink_to'
+            elif c == 'pop' and not r.chance(1, 4): c = 'truncate'
         bad = self.p.get('bad_indices') and r.chance(1, 5)
         if c == 'push':
             cp = r.pick(ALLCH); self.emit(self.mode(), 'push', i, cp); s.text = t + enc(cp)
         elif c == 'push_str':
             # aim at capacity boundaries: 16 - L, etc.
             tgt = r.pick([0, 1, 2, max(0, 16 - L), max(0, 17 - L), 5, 9, 20, 33])
+            if large and r.chance(1, 4): tgt = min(6000, max(0, r.pick(PAGEISH) - L))
             x = gen_text(r, tgt)
             route = r.pick(['push_str', 'push_str', 'push_str', 'add_assign', 'add', 'write_str', 'extend1'])
             self.emit(self.mode(), 'push_str', route, i, hexs(x)); s.text = t + x
@@ -177,14 +189,14 @@ class CaseGen:
             if L: s.text = t[:bs[-2]] if len(bs) >= 2 else b''
         elif c == 'remove':
             if bad or L == 0:
-                idx = r.pick([L, L + 1, L + 2] + [k for k in range(L) if k not in bs][:3] + [r.pick(SIZES_BIG)])
+                idx = r.pick([L, L + 1, L + 2] + [k for k in range(L) if k not in bset][:3] + [r.pick(SIZES_BIG)])
                 self.emit(self.mode(), 'remove', i, idx)
             else:
                 k = r.below(len(bs) - 1); idx = bs[k]
                 self.emit(self.mode(), 'remove', i, idx); s.text = t[:idx] + t[bs[k + 1]:]
         elif c in ('insert', 'insert_str'):
             if bad:
-                cand = [L + 1, L + 2] + [k for k in range(L) if k not in bs][:4] + [r.pick(SIZES_BIG)]
+                cand = [L + 1, L + 2] + [k for k in range(L) if k not in bset][:4] + [r.pick(SIZES_BIG)]
                 idx = r.pick(cand); x = gen_text(r, r.pick([0, 1, 3]))
                 if c == 'insert': self.emit(self.mode(), 'insert', i, idx, r.pick(ALLCH))
                 else: self.emit(self.mode(), 'insert_str', i, idx, hexs(x))
@@ -193,11 +205,12 @@ class CaseGen:
                 if c == 'insert':
                     cp = r.pick(ALLCH); self.emit(self.mode(), 'insert', i, idx, cp); s.text = t[:idx] + enc(cp) + t[idx:]
                 else:
-                    x = gen_text(r, r.pick([0, 1, 2, max(0, 16 - L), max(0, 17 - L), 5, 20]))
+                    x = gen_text(r, r.pick([0, 1, 2, max(0, 16 - L), max(0, 17 - L), 5, 20]) if not (large and r.chance(1, 5)) else min(6000, max(0, r.pick(PAGEISH) - L)))
+                    if large and r.chance(1, 2): idx = r.pick([b for b in bs if b <= 64] + [bs[len(bs) // 2]])
                     self.emit(self.mode(), 'insert_str', i, idx, hexs(x)); s.text = t[:idx] + x + t[idx:]
         elif c == 'truncate':
-            if bad and [k for k in range(L) if k not in bs]:
-                self.emit(self.mode(), 'truncate', i, r.pick([k for k in range(L) if k not in bs]))
+            if bad and [k for k in range(L) if k not in bset]:
+                self.emit(self.mode(), 'truncate', i, r.pick([k for k in range(L) if k not in bset]))
             else:
                 n = r.pick(bs + [L + 1, L + 5] + ([r.pick(SIZES_BIG)] if r.chance(1, 6) else []))
                 self.emit(self.mode(), 'truncate', i, n)
@@ -221,9 +234,13 @@ class CaseGen:
                 n = r.pick(SIZES_BIG + [(edge - L - k) & MASK for k in (0, 1, 2, 7, 8, 15, 16)] + [(edge - L + 1) & MASK])
             else:
                 n = r.pick([0, 1, 2, max(0, 16 - L), max(0, 17 - L), 8, 30, 100])
+                if large and r.chance(1, 2): n = r.pick([max(0, q - L) for q in PAGEISH] + [4034, 4096, 4097, 5000])
             self.emit(self.mode(), 'reserve', i, n)
         elif c == 'shrink_to':
             n = r.pick([0, L, L + 1, max(0, L - 1), 16, 17, L + L // 2, L + L // 2 + 1, 2 * L, 100]) if not (self.p.get('big_sizes') and r.chance(1, 6)) else r.pick(SIZES_BIG)
+            if large and r.chance(2, 3):
+                # just below a likely capacity (with_capacity / from_str / reserve of a page-ish size give exactly that)
+                n = r.pick([L + 1, L + 10, L + 50, L + 63, L + 64, L + 100] + PAGEISH + [max(0, q - d) for q in PAGEISH if q >= L for d in (1, 7, 32, 63, 64, 100)])
             self.emit(self.mode(), 'shrink_to', i, n)
         elif c == 'shrink_to_fit':
             self.emit(self.mode(), 'shrink_to_fit', i)
@@ -260,7 +277,7 @@ class CaseGen:
     def run(self, nsteps):
         r = self.r
         for _ in range(r.pick([0, 1, 1, 2, 3])):
-            self.statics.append(gen_text(r, r.pick([0, 5, 16, 17, 18, 24, 33, 60])))
+            self.statics.append(gen_text(r, r.pick([0, 5, 16, 17, 18, 24, 33, 60]) if not (self.p.get('large') and r.chance(1, 2)) else r.pick(PAGEISH)))
         # steer: start from 1-2 constructors, then favour ops on slots that share with others
         self.op_ctor()
         while self.nops < nsteps:
@@ -290,6 +307,9 @@ PROFILES = {
     'hostile': dict(steps=[6, 10, 16, 24], bad_indices=True, big_sizes=True, user_panics=True),
     # allocation faults
     'faults': dict(steps=[6, 10, 16, 24], faults=True, user_panics=True, fault_range=14),
+    # few operations on texts and capacities of a page or more
+    'large': dict(steps=[4, 6, 8, 12], large=True, limit=1 << 20),
+    'large_faults': dict(steps=[4, 6, 8], large=True, faults=True, fault_range=8, limit=1 << 20),
     'faults_hostile': dict(steps=[6, 10, 16], faults=True, bad_indices=True, big_sizes=True, user_panics=True, fault_range=10),
 }
 
